@@ -101,6 +101,8 @@ type Options struct {
 	Concrete     map[string]string // replay: variable values; when non-nil the run is fully concrete
 	KeepGoing    bool              // continue exploring after a violation
 	DumpDir      string
+	Tier         int             // 0 quick, 1 thorough (read by harnesses via verifTier)
+	Known        map[string]bool // ids of listed known findings
 }
 
 func (o *Options) defaults() {
@@ -149,7 +151,16 @@ type Violation struct {
 	Detail  string            `json:"detail,omitempty"`
 }
 
+type KnownHit struct {
+	ID      string            `json:"id"`
+	Harness string            `json:"harness"`
+	Label   string            `json:"label"`
+	Model   map[string]string `json:"vars"`
+}
+
 type PathResult struct {
+	KnownHits     []KnownHit
+	NDecisions    int
 	Decisions     string
 	Outcome       string // "ok","infeasible","assume-false","unsupported","unwind","budget","panic","violation"
 	Msg           string
@@ -186,6 +197,8 @@ type HarnessResult struct {
 	WallS         float64                   `json:"wall_s"`
 	SamplePaths   []string                  `json:"sample_paths"`
 	PathBudgetHit bool                      `json:"path_budget_hit"`
+	KnownHits     []KnownHit                `json:"known_hits"`
+	Decisions     int                       `json:"decisions"`
 }
 
 type Run struct {
@@ -313,6 +326,10 @@ func (p *Program) RunHarness(fn *ssa.Function, opts Options) *HarnessResult {
 				}
 			}
 			hr.Violations = append(hr.Violations, res.Violations...)
+			hr.KnownHits = append(hr.KnownHits, res.KnownHits...)
+			if res.Outcome != "infeasible" {
+				hr.Decisions += res.NDecisions
+			}
 			switch res.Outcome {
 			case "unsupported", "unwind", "budget", "panic":
 				inconc[res.Outcome+": "+truncStr(res.Msg, 1500)] = true
@@ -397,6 +414,7 @@ func (r *Run) runPath(w *worker, prefix []bool) (res *PathResult, newPrefixes []
 	defer func() {
 		w.solver = i.solver
 		res.Decisions = decisionString(i.decisions)
+		res.NDecisions = len(i.decisions)
 		res.Steps = i.steps
 		res.UnknownFeas = i.unknownFeas
 		newPrefixes = i.newPrefixes
